@@ -307,6 +307,43 @@ def run_layouts(chk, binary, sc, tier, want_valid, want_invalid, chain, nonascii
     return jobs, recs, obs
 
 
+LEXER_CFG = """SPECIFICATION Spec
+CHECK_DEADLOCK FALSE
+INVARIANTS TokenOK AllTokens ErrorReported NoSpuriousError
+"""
+
+
+def lexer_corpus():
+    import lexcorpus
+    return lexcorpus.lexer_corpus(REPO)
+
+
+def lexer_validate(chk, binary, sc, docs, what, verdict=False):
+    """The lexer half of the binding: every token the real lexer produced (hook VerifTokens) for every document is the token the lexer
+    automaton of spec/Lexer.tla - the comment pre-pass followed by the rules of OpenFGALexer.g4 - holds at that step; where the automaton
+    finds a character no rule accepts, the run reported a token recognition error. ASCII documents only (TLC's strings, DESIGN II.3)."""
+    docs = [d for d in docs if all(0 < ord(c) < 128 for c in d["text"])]
+    inp, out = sc.path("lex.in.ndjson"), sc.path("lexer_docs.ndjson")
+    write_ndjson(inp, [{"id": d["id"], "text": d["text"]} for d in docs])
+    run_harness(binary, ["lexer-record", "-in", inp, "-out", out])
+    recs = read_ndjson(out)
+    if not recs or not any(r["tokens"] for r in recs):
+        raise Infra("the token hook recorded nothing (hook removed or not compiled in?)")
+    res = run_tlc("Lexer", LEXER_CFG, sc, data_files={"lexer_docs.ndjson": out}, timeout=3000)
+    ntok = sum(len(r["tokens"]) for r in recs)
+    if res.violated:
+        rec = {"lexer": "TLC rejects a recorded token trace (%s): %s" % (what, res.violated), "detail": res.tail[-1800:]}
+        if verdict:
+            chk.violation("the Go lexer does not produce the tokens OpenFGALexer.g4 describes (%s): %s" % (what, res.violated), rec)
+        else:
+            chk.drift.append(rec)
+        log("lexer traces (%s): %d documents / %d tokens, REJECTED by the lexer automaton (%s)%s" % (what, len(recs), ntok, res.violated, "" if verdict else " - drift, not a verdict"))
+    else:
+        log("lexer traces (%s): %d documents / %d tokens validated by TLC against the lexer automaton of spec/Lexer.tla (%d states, %.0fs)" % (what, len(recs), ntok, res.distinct, res.wall))
+        chk.add("lexer_tokens_validated", ntok)
+    return not res.violated
+
+
 LISTENER_CFG = """SPECIFICATION Spec
 CHECK_DEADLOCK FALSE
 INVARIANTS PostStateOK ResultOK NotStuck
@@ -515,6 +552,7 @@ def run_c03(chk, binary, sc, tier):
     nlst = listener_validate(chk, binary, sc, recs, 100000)
     doc_model_check(chk, sc, tier)
     nlst += doc_validate(chk, binary, sc, layout_docs(jobs[::4] if tier == "quick" else jobs, recs), "grammatical layouts")
+    lexer_validate(chk, binary, sc, [d for d in layout_docs(jobs[::4] if tier == "quick" else jobs, recs) if len(d["text"]) < 20000], "grammatical layouts")
     chk.cov.update(traces_validated_against_impl=nlst, evaluations=len(jobs), distinct_nontrivial=len(texts), documents=len(jobs),
                    rule="documents = indexed family (3 name sets incl. keywords and dotted/dashed identifiers x model / deep model / module file x rewrite trees x position of the direct assignment x "
                         "redundant parentheses x restriction and condition variants); layouts = every single style dimension, every single local override on a block of documents, "
@@ -607,6 +645,7 @@ def run_c09(chk, binary, sc, tier):
             chk.violation("rejected without an error value (%s)" % r["viol"], rep)
     doc_model_check(chk, sc, tier)
     doc_validate(chk, binary, sc, layout_docs(jobs[::3] if tier == "quick" else jobs, recs), "catalogue violations")
+    lexer_validate(chk, binary, sc, [d for d in layout_docs(jobs[::3] if tier == "quick" else jobs, recs) if len(d["text"]) < 20000], "catalogue violations")
     chk.cov.update(traces_validated_against_impl=len(jobs), evaluations=len(jobs), distinct_nontrivial=len({recs[j["id"]]["text"] for j in jobs}), per_violation=kinds,
                    rule="13 structural violations x injection sites (relation index, operand position, nesting depth 0-2, operator pair, rewrite shape of the duplicate, parameter index) x documents "
                         "(3 name sets, model / deep / module) + the same under random layouts; distinct by text")
